@@ -31,6 +31,10 @@ MUTS = {
     "M11_use_y_sign": ("svg.py", '        svg_use.attrib["y"] = _ntos(ty)', '        svg_use.attrib["y"] = _ntos(-ty)', ["C02", "C06"]),
     "M13_svg_no_inverse_reuse": ("svg.py", "                            reuse_result.transform.inverse(),\n", "                            Affine2D.identity(),\n", ["C02", "C06"]),
     "M17_otsvg_vb_origin": ("color_glyph.py", "            Affine2D(1, 0, 0, 1, -view_box.x, -view_box.y),", "            Affine2D(1, 0, 0, 1, view_box.x, -view_box.y),", ["C01", "C02"]),
+    "M18_v0_alpha_dropped": ("write_font.py", "            c if colr_version == 0 else c.opaque()\n", "            c.opaque()\n", ["C03", "C15"]),
+    "M19_v0_inverse_transform": ("write_font.py", "            glyph_name = _create_transformed_glyph(\n                color_glyph, paint_glyph, context.transform\n            ).name", "            glyph_name = _create_transformed_glyph(\n                color_glyph, paint_glyph, context.transform.inverse()\n            ).name", ["C03"]),
+    "M20_inline_shared_component": ("write_font.py", "            and glyph_uses[parent_glyph.components[0].baseGlyph] == 1\n", "            and glyph_uses[parent_glyph.components[0].baseGlyph] >= 1\n", ["C03"]),
+    "M21_no_extents": ("write_font.py", "    if rectArea(bounds) == 0:\n        return\n", "    return\n", ["C03"]),
     "M24_min_advance": ("color_glyph.py", "    return max(config.width, round(font_height * view_box.w / view_box.h))", "    return min(config.width, round(font_height * view_box.w / view_box.h)) if config.width else round(font_height * view_box.w / view_box.h)", ["C04", "C01"]),
     "M27_bounds_ignore_transform": ("write_font.py", "    if not transform.almost_equals(Affine2D.identity()):\n        pen = TransformPen(bounds_pen, transform)", "    if False:\n        pen = TransformPen(bounds_pen, transform)", ["C05"]),
     "M72_cx_uses_sy": ("paint.py", "                    cx = dx / (1 - sx)\n", "                    cx = dx / (1 - sy) if sy != 1 else dx / (1 - sx)\n", ["C16"]),
@@ -39,6 +43,16 @@ MUTS = {
     "M75_f2dot14_upper_2.0": ("fixed.py", "MAX_F2DOT14 = MAX_INT16 / (1 << 14)", "MAX_F2DOT14 = 2.0", ["C16"]),
     "M76_no_copysign": ("paint.py", "    uniform_scale = Affine2D(s, 0, 0, copysign(s, transform.d), 0, 0)", "    uniform_scale = Affine2D(s, 0, 0, s, 0, 0)", ["C16", "C01"]),
     "M76b_translate_not_int_checked": ("paint.py", "        if int16_safe(dx, dy):\n            return PaintTranslate", "        if True:\n            return PaintTranslate", ["C16"]),
+    "M28_last_rect_not_union": ("write_font.py", "                bounds = unionRect(bounds, glyph_bbox)\n", "                bounds = glyph_bbox\n", ["C05"]),
+    "M29_round_not_floor_ceil": ("write_font.py", "        int(math.floor(xMin / factor) * factor),\n        int(math.floor(yMin / factor) * factor),\n        int(math.ceil(xMax / factor) * factor),\n        int(math.ceil(yMax / factor) * factor),", "        int(round(xMin / factor) * factor),\n        int(round(yMin / factor) * factor),\n        int(round(xMax / factor) * factor),\n        int(round(yMax / factor) * factor),", ["C05"]),
+    "M30_quantise_unrounded": ("write_font.py", "        quantization = round(config.upem * 0.02)\n", "        quantization = config.upem * 0.02\n", ["C05"]),
+    "M30b_clip_for_empty": ("write_font.py", "    if bounds is None:\n        return\n    # before quantizing", "    if bounds is None:\n        return (0, 0, 0, 0)\n    # before quantizing", ["C05"]),
+    "M31_no_fixed_safe": ("glyph_reuse.py", "        if not fixed_safe(*affine):\n", "        if False:\n", ["C06"]),
+    "M32_tolerance_x10": ("glyph_reuse.py", "            SVGPath(d=glyph_path), SVGPath(d=path), self._reuse_tolerance\n", "            SVGPath(d=glyph_path), SVGPath(d=path), self._reuse_tolerance * 10\n", ["C06"]),
+    "M33_reuse_without_affine_check": ("glyph_reuse.py", "        if affine is None:\n            logging.warning(\"affine_between failed: %s %s \", glyph_path, path)\n            return None\n", "        if affine is None:\n            affine = Affine2D.identity()\n", ["C06", "C01"]),
+    "M82_normalize_tolerance_div1000": ("glyph_reuse.py", "        self._normalize_tolerance = self._reuse_tolerance / 10\n", "        self._normalize_tolerance = self._reuse_tolerance / 1000\n", ["C19"]),
+    "M83_no_reuse_when_mirrored": ("glyph_reuse.py", "        # https://github.com/googlefonts/nanoemoji/issues/313 avoid out of bounds affines\n", "        if affine.determinant() < 0:\n            return None\n", ["C19"]),
+    "M84_cache_keyed_by_raw_path": ("glyph_reuse.py", "        norm_path = normalize(SVGPath(d=path), self._normalize_tolerance).d\n        if norm_path not in self._reusable_paths:", "        norm_path = path\n        if norm_path not in self._reusable_paths:", ["C19"]),
     "M68_unindexed_popleft": ("colors.py", "            result[i] = cpal_colors.pop()\n", "            result[i] = cpal_colors.popleft() if cpal_colors[0].palette_index is None else cpal_colors.pop()\n", ["C15"]),
     "M69_slots_len_only": ("colors.py", "    cpal_slots = max(len(all_colors), max(indexed_colors, default=-1) + 1)", "    cpal_slots = max(len(all_colors), len(indexed_colors))", ["C15"]),
     "M70_conflict_by_rgb_only": ("colors.py", "            if color.palette_index in indexed_colors:\n", "            if color.palette_index in indexed_colors and indexed_colors[color.palette_index][:3] != color[:3]:\n", ["C15"]),
